@@ -320,7 +320,8 @@ async fn run_history(case: &C18Case, obs: &mut Obs) {
 				}
 				let i = act[pick_idx(*pick, act.len())];
 				let sid = w.subs[i].sub_id.clone().unwrap();
-				let close = json!({"jsonrpc":"2.0","method":"n","params":{"subscription":sid,"error":"bye"}});
+				// (every third close carries members a reader ignores)
+				let close = if pick % 5 == 4 { json!({"jsonrpc":"2.0","method":"n","extra":1,"params":{"subscription":sid,"error":"bye","reason":"quota"}}) } else { json!({"jsonrpc":"2.0","method":"n","params":{"subscription":sid,"error":"bye"}}) };
 				// singly, alone in an array, or in an array behind a notification nobody listens to
 				match pick % 3 {
 					0 => w.mc.push_text(close.to_string()),
@@ -605,9 +606,109 @@ pub fn check(ctx: &mut Ctx) {
 	ctx.run_cases_parallel(&Tables, cyc, 16);
 	ctx.run_sub(&Tables);
 	ctx.run_sub(&FullQueueTables);
+	ctx.run_sub(&HandlerDroppedWithFullQueue);
 }
 
 pub fn replay(file: &serde_json::Value) -> Option<i32> {
-	replay_with(&Tables, file, "C18").or_else(|| replay_with(&FullQueueTables, file, "C18"))
+	replay_with(&Tables, file, "C18").or_else(|| replay_with(&FullQueueTables, file, "C18")).or_else(|| replay_with(&HandlerDroppedWithFullQueue, file, "C18"))
 }
 
+
+// ---------------------------------------------------------------------------------------------
+// a notification handler given up while the request queue is full
+// ---------------------------------------------------------------------------------------------
+
+#[derive(Clone, Debug, Serialize, Deserialize)]
+pub struct HandlerDropCase {
+	/// 0 = the registration future is dropped while the registration is still queued,
+	/// 1 = the registered handler is dropped while the queue is full (its unregister notice is lost)
+	pub how: u8,
+	pub pushes: u8,
+	pub packed: bool,
+	pub id_kind: IdK,
+}
+
+pub struct HandlerDroppedWithFullQueue;
+
+impl SubCheck for HandlerDroppedWithFullQueue {
+	type Case = HandlerDropCase;
+	fn name(&self) -> &'static str {
+		"handler-given-up-with-full-queue"
+	}
+	fn cases(&self, tier: Tier) -> u32 {
+		tier.pick(2_000, 40_000)
+	}
+	fn strategy(&self, _tier: Tier) -> BoxedStrategy<HandlerDropCase> {
+		(0u8..2, 1u8..4, any::<bool>(), prop_oneof![Just(IdK::Number), Just(IdK::String)]).prop_map(|(how, pushes, packed, id_kind)| HandlerDropCase { how, pushes, packed, id_kind }).boxed()
+	}
+	fn run(&self, case: &HandlerDropCase, obs: &mut Obs) {
+		use jsonrpsee_core::client::{ClientT, SubscriptionClientT};
+		let rt = rt();
+		rt.block_on(async {
+			let mc = MockClient::new(ClientCfg { id_kind: case.id_kind, max_concurrent_requests: 1, ..ClientCfg::default() });
+			let desc = || format!("case={case:?}");
+			let mut handler = None;
+			if case.how == 1 {
+				match mc.client.subscribe_to_method::<Value>("evt").await {
+					Ok(h) => handler = Some(h),
+					Err(e) => {
+						obs.fail("c18/register-handler-failed", format!("{e:?}; {}", desc()));
+						return;
+					}
+				}
+			}
+			// call A hangs inside the transport's send, call B fills the only slot of the request queue
+			mc.shared.send_plans.lock().push_back(SendPlan::Gate("g".into()));
+			let (ca, cb) = (mc.client.clone(), mc.client.clone());
+			let ta = tokio::spawn(async move { ca.request::<Value, _>("call_a", jsonrpsee_core::rpc_params![]).await.is_ok() });
+			settle().await;
+			let tb = tokio::spawn(async move { cb.request::<Value, _>("call_b", jsonrpsee_core::rpc_params![]).await.is_ok() });
+			settle().await;
+			if case.how == 1 {
+				// the unregister notice does not fit into the queue
+				drop(handler.take());
+			} else {
+				// the registration waits for room in the queue; its caller gives up
+				let c = mc.client.clone();
+				let t = tokio::spawn(async move { c.subscribe_to_method::<Value>("evt").await.map(|_| ()) });
+				settle().await;
+				t.abort();
+			}
+			settle().await;
+			mc.shared.gates.open("g");
+			settle().await;
+			let wire = mc.wire_all();
+			for m in ["call_a", "call_b"] {
+				if let Some(id) = wire_id_of(&wire, m) {
+					mc.push_text(json!({"jsonrpc":"2.0","id":id,"result":0}).to_string());
+				}
+			}
+			settle().await;
+			let _ = (ta.now_or_never(), tb.now_or_never());
+			// notifications for the method nobody listens to any more arrive
+			let n = json!({"jsonrpc":"2.0","method":"evt","params":[1]});
+			if case.packed && case.pushes >= 2 {
+				mc.push_text(Value::Array(vec![n.clone(); case.pushes as usize]).to_string());
+			} else {
+				for _ in 0..case.pushes {
+					mc.push_text(n.to_string());
+					settle().await;
+				}
+			}
+			settle().await;
+			#[cfg(feature = "hooks")]
+			{
+				let sz = mc.client.verif_table_sizes();
+				obs.check(sz == [0, 0, 0, 0], "c18/handler-table-not-empty", || format!("tables {sz:?} after {} notifications for a handler nobody holds any more; {}", case.pushes, desc()));
+			}
+			// the method name can be registered again
+			match mc.client.subscribe_to_method::<Value>("evt").await {
+				Ok(_h) => {}
+				Err(e) => obs.fail("c18/handler-name-still-taken", format!("{e:?}; {}", desc())),
+			}
+			obs.check(mc.client.is_connected(), "c18/client-disconnected", || format!("{:?}; {}", mc.shared.events.lock(), desc()));
+			obs.nontrivial();
+			obs.class(if case.how == 1 { "handler-dropped-unregister-lost" } else { "registration-given-up-while-queued" });
+		});
+	}
+}
